@@ -142,7 +142,7 @@ func TestC02Session(t *testing.T) {
 						fail("Deliver panicked: %v", rec)
 					}
 				}()
-				isApp, out, err = r.s.Deliver(nil, m.data, tBase)
+				isApp, out, err = deliverRecycled(r.s, m.data, tBase)
 			}()
 			if err != nil || !isApp {
 				return
@@ -317,7 +317,7 @@ func TestC02Session(t *testing.T) {
 					case "doneOwnKey":
 						m = fp.InitDone(kefake.SignAs(2, kefake.PurposeCB, cb))
 					}
-					isApp, out, err := victim.Deliver(nil, m, tBase)
+					isApp, out, err := deliverRecycled(victim, m, tBase)
 					if err == nil && isApp {
 						fail("a responder handed %q to the application although its peer never proved the claimed key (forged step %s after a lifted InitHello claim)", out, st)
 					}
